@@ -163,6 +163,12 @@ def evaluate(case):
                 counters["select:r>=2 returned"] = 1
             except Exception:
                 counters["select:r>=2 raised"] = 1
+        if case["mode"] != "generic" and r <= 1:
+            # the same selection rule inside a compiled (registered) function
+            def f(a, _n=name):
+                return getattr(a, _n)()
+            _expect(kd.to_dict(_call(lambda: alg.register(f)(x), "dual-selection", name), op=name),
+                    kd.to_dict(getattr(x, name)()), "dual-selection", name, f"alg.register(lambda a: a.{name}())(x) vs x.{name}()")
         _expect(kd.to_dict(_call(lambda: getattr(x, name)(kind="hodge"), "dual-selection", name), op=name),
                 Rr.unhodge(da) if case["undual"] else Rr.hodge(da), "dual-selection", name, f"{name}(kind='hodge')")
         if r == 0:
